@@ -227,6 +227,7 @@ func (s *Storage) SaveRegion(region *metapb.Region) error {
 // DeleteRegion deletes one region from storage.
 func (s *Storage) DeleteRegion(region *metapb.Region) error {
 	if atomic.LoadInt32(&s.useRegionStorage) > 0 {
+		s.regionStorage.dropFromBatch(region)
 		return deleteRegion(s.regionStorage, region)
 	}
 	return deleteRegion(s.Base, region)
